@@ -1558,7 +1558,7 @@ def table_def(name, vals, doc):
         names.append(nm)
         rows = [", ".join(str(v) for v in vals[j:j + 32]) for j in range(i, min(i + 256, len(vals)), 32)]
         out.append("def %s : List Nat := [\n  %s]" % (nm, ",\n  ".join(rows)))
-    out.append("/-- %s -/\ndef %s : List Nat := %s" % (doc, name, " ++ ".join(names)))
-    out.append("/-- `%s[i]` (0 beyond the end), looked up chunk by chunk so that kernel evaluation stays cheap -/\ndef %s_at (i : Nat) : Nat :=\n  match i / 256 with\n%s\n  | _ => 0"
-               % (name, name, "\n".join("  | %d => %s.getD (i %% 256) 0" % (j, nm) for j, nm in enumerate(names))))
+    out.append("/-- %s, in chunks of 256 -/\ndef %s_chunks : List (List Nat) := [%s]" % (doc, name, ", ".join(names)))
+    out.append("/-- `%s[i]` (0 beyond the end), looked up chunk by chunk so that kernel evaluation stays cheap -/\n"
+               "def %s_at (i : Nat) : Nat := (%s_chunks.getD (i / 256) []).getD (i %% 256) 0" % (name, name, name))
     return "\n\n".join(out)
